@@ -53,7 +53,7 @@ def fix_oracle_params(cases):
 
 
 from props import gen_hash
-CFG = DC.Config("C12", [k for k in D.ALL_KINDS if k != "XBW"], make_cmds, nsets=(7, 50), big=True, components=[gen_hash],
+CFG = DC.Config("C12", [k for k in D.ALL_KINDS if k != "XBW"], make_cmds, nsets=(7, 20), big=True, components=[gen_hash],
                 rule="for each kind the same S is built under up to three parameter vectors drawn from the grid (bucket size 0,1 (clamped to 2),"
                      "2,3,4,7,8,16,1000; overhead 0,1,10,50,300; FM bitmap RG/RRR x sampling x BWT step 0..64; blocks overhead x cut "
                      "1..2^20 x threads 1..8; random load option 1..3 for HASHHF/HASHRPF) and every answer (all ids, members, absent queries, "
